@@ -319,6 +319,10 @@ def c01c(prog, rep):
 
 def check_c07(prog, rep, tier, cfg):
     merge_key_is_the_whole_line(prog, rep, "C07.k")
+    # C07.l — an asm instruction is kept verbatim because it is in an AsmInstruction line of some pass: every conditional-directive pass
+    # is given to the line parser (shared with C14.i) — tokens of a pass that is never parsed are in no line and are formatted
+    import parse_cov as _pc
+    _pc.every_pass_is_parsed(prog, rep, "C07.l")
     R = "C07.a"
     ft = LANG + "FormattedTokens"
     # single door to &mut Token
